@@ -46,6 +46,16 @@ pub fn gen_knots(r: &mut Rng, k: usize, max_interior: usize) -> (Vec<f64>, &'sta
     for _ in 0..k {
         t.push(x);
     }
+    // the whole sequence at another absolute scale (an exact power of two, so the shape is unchanged): a domain
+    // narrower than machine epsilon, or wider than 2^60, is still an admissible knot sequence
+    if r.chance(0.2) {
+        let s = [-60, -30, 30, 60][r.usize(4)];
+        let f = 2f64.powi(s);
+        for v in t.iter_mut() {
+            *v *= f;
+        }
+        return (t, ["integer knots x 2^s", "binary-fraction knots x 2^s", "decimal knots x 2^s"][kind as usize]);
+    }
     (t, ["integer knots", "binary-fraction knots", "decimal knots"][kind as usize])
 }
 
@@ -92,7 +102,7 @@ impl Prop for C14 {
         "C14"
     }
     fn phases(&self, tier: Tier) -> Vec<PhaseSpec> {
-        vec![ph("knot vectors x all basis indices x derivative orders x evaluation points", tier.pick(3_000, 100_000))]
+        vec![ph("knot vectors x all basis indices x derivative orders x evaluation points", tier.pick(3_000, 400_000))]
     }
     fn required_classes(&self, _tier: Tier) -> Vec<String> {
         let mut v = vec![];
@@ -102,7 +112,7 @@ impl Prop for C14 {
         for p in ["left-end", "right-end", "interior-knot", "just-above-knot", "just-below-knot", "midpoint", "random"] {
             v.push(format!("point:{}", p));
         }
-        for s in ["repeated-interior-knot", "no-interior-knots", "m>=k", "m=k-1", "outside-support", "array-form"] {
+        for s in ["repeated-interior-knot", "no-interior-knots", "m>=k", "m=k-1", "outside-support", "array-form", "scale:tiny-domain", "scale:huge-domain"] {
             v.push(s.to_string());
         }
         v
@@ -123,6 +133,9 @@ impl Prop for C14 {
         let pts = eval_points(rng, &t, 20);
         ctx.crumb(&format!("k={} t={:?}", k, t));
         ctx.class(&format!("order:{}", k));
+        if spacing.ends_with("2^s") {
+            ctx.class(if (t[t.len() - 1] - t[0]).abs() < 1e-6 { "scale:tiny-domain" } else { "scale:huge-domain" });
+        }
         let mut uniq = t.clone();
         uniq.dedup();
         if t.len() == 2 * k {
